@@ -429,14 +429,9 @@ func enclosingRangeLoop(b *ssa.BasicBlock) *loopInfo {
 	fn := b.Parent()
 	var best *loopInfo
 	for _, h := range fn.Blocks {
-		if !(h == b || (reachableBlock(h, b) && reachableBlock(b, h))) {
+		blocks := naturalLoop(h)
+		if blocks == nil || !blocks[b] {
 			continue
-		}
-		blocks := map[*ssa.BasicBlock]bool{}
-		for _, x := range fn.Blocks {
-			if x == h || (reachableBlock(h, x) && reachableBlock(x, h)) {
-				blocks[x] = true
-			}
 		}
 		for _, in := range h.Instrs {
 			phi, ok := in.(*ssa.Phi)
